@@ -346,7 +346,7 @@ class AbsEval(PyEval):
                             c0 = self.cls_of(f)
                             if c0 is not None and ({"IntEnum", "IntFlag"} & c0.ext_bases()):
                                 # value-like enum used for naming only: keep the value symbolic
-                                return EnumMember(f.name, "<sym>", v)
+                                return EnumMember(f.name, "<" + sym_name(v) + ">", v)
                             raise Unknown(f"enum lookup {f.name}(<symbolic>) at {self.where(n)}")
                         v = v.value()
                     for m in members.values():
@@ -579,8 +579,13 @@ class AbsEval(PyEval):
                 try:
                     val = self.eval(v.value)
                     spec = self.eval(v.format_spec) if v.format_spec else ""
+                    if isinstance(val, EnumMember) and isinstance(val.value, BitVec):
+                        val = val.value
                     if isinstance(val, BitVec):
-                        val = val.value() if val.is_const() else "<sym>"
+                        val = val.value() if val.is_const() else None
+                        if val is None:
+                            out += "<" + sym_name(self.eval(v.value) if not isinstance(self.eval(v.value), EnumMember) else self.eval(v.value).value) + ">"
+                            continue
                     out += format(_unwrap(val), spec) if not isinstance(val, (Obj, Term)) else f"<{type(val).__name__}>"
                 except Raised:
                     raise
@@ -889,6 +894,39 @@ def _enum_is_valuelike(ev: AbsEval, m: EnumMember) -> bool:
             eb = c.ext_bases()
             return bool({"IntEnum", "IntFlag", "StrEnum", "str", "int"} & eb)
     return False
+
+
+def sym_name(v: Any) -> str:
+    """Canonical short name of a symbolic bit-vector: in3, in0|in1<<8, ... (falls back to the bit list)."""
+    if not isinstance(v, BitVec):
+        return repr(v)
+    bits = v.bits
+    parts = []
+    i = 0
+    width = max((k + 1 for k, b in enumerate(bits) if b != 0), default=0)
+    ok = True
+    while i < width:
+        b = bits[i]
+        if isinstance(b, tuple) and len(b) == 3 and not b[2] and b[1] == 0 and i % 8 == 0:
+            name = b[0]
+            n = 0
+            while i + n < len(bits) and bits[i + n] == (name, n, False):
+                n += 1
+            # the remainder of the byte must be zero when the run is shorter than 8
+            if any(bits[i + k] != 0 for k in range(n, 8) if i + k < len(bits)):
+                ok = False
+                break
+            parts.append(name + (f"[{n}]" if n != 8 else "") + (f"<<{i}" if i else ""))
+            i += 8
+        elif b == 0 and all(x == 0 for x in bits[i:i + 8]):
+            i += 8
+        else:
+            ok = False
+            break
+    if ok and parts:
+        return "|".join(parts)
+    from .bits import show_bit
+    return "[" + " ".join(show_bit(x) for x in bits[:width]) + "]"
 
 
 class _PartialGen:
